@@ -80,7 +80,7 @@ def binders(ns):
     """Ordered list of the local binder names of one function; `ns` is its text with comments and
     literal contents blanked."""
     bound, events = [], []
-    sig = re.match(r"fn\s+\w+\s*(?:<[^{(]*>)?\s*\(", ns)
+    sig = re.match(r"fn\s+\$?\w+\s*(?:<[^{(]*>)?\s*\(", ns)
     if sig:
         depth, k = 1, sig.end()
         while k < len(ns) and depth:
@@ -135,7 +135,7 @@ VERIF_STMT = re.compile(r"#\[cfg\(num_bigint_verif\)\]\s*[^\n;{]*;")
 def spans(code):
     """(key, start, end) of every function with a body, in file order; keys as in fn_hashes.json."""
     seen = {}
-    for m in re.finditer(r"\bfn\s+(\w+)", code):
+    for m in re.finditer(r"\bfn\s+(\$?\w+)", code):     # `fn $method` inside macro definitions too
         i = code.find("{", m.end())
         j = code.find(";", m.end())
         if i < 0 or (0 <= j < i):
